@@ -277,6 +277,7 @@ def gindexStep (root : Nat) (t : Ty) (k : Key) : Option (Nat × Option Ty) :=
     if i < n then some (root * pow2ceil ((n + 255) / 256) + i / 256, some .bool) else none
   | .bytelist lim, .idx i =>
     if i < lim then some (root * 2 * pow2ceil ((lim + 31) / 32) + i / 32, some (.uint 1)) else none
+  | .bytelist _, .len => some (root * 2 + 1, some (.uint 32))
   | .bytevector n, .idx i =>
     if i < n then some (root * pow2ceil ((n + 31) / 32) + i / 32, some (.uint 1)) else none
   | .union hasNone opts, .idx i =>
